@@ -15,7 +15,7 @@ def setup(E):
     E3 = type(E)()
     sftp_handle.declare(E3)
     TARGETS = [t for t in TARGETS if not (isinstance(t, tuple) and t[1] == "server-handle")]
-    for fn in ("read", "write"):
+    for fn in ("__init__", "read", "write"):
         qn = "paramiko.sftp_handle.SFTPHandle." + fn
         TARGETS.append((qn, "server-handle", dict(E3.contracts[qn], **{
             "+replace": True, "+contracts": {k: v for k, v in E3.contracts.items() if k != qn},
